@@ -330,9 +330,13 @@ func (c *Client) Send(packet stanza.Packet) error {
 	if c.config.StreamManagementEnable {
 		_, isRequest := packet.(stanza.SMRequest)
 		_, isAnswer := packet.(stanza.SMAnswer)
-		if !isRequest && !isAnswer {
+		if q := c.Session.SMState.UnAckQueue; q != nil && !isRequest && !isAnswer {
+			// Number, queue and write under the queue's lock, so that concurrent senders are held in the
+			// order in which their stanzas reach the server.
+			q.Lock()
+			defer q.Unlock()
 			toStore := stanza.UnAckedStz{Stz: string(data)}
-			c.Session.SMState.UnAckQueue.Push(&toStore)
+			q.Push(&toStore)
 		}
 	}
 
@@ -371,8 +375,13 @@ func (c *Client) SendRaw(packet string) error {
 	// Store stanza as non-acked as part of stream management
 	// See https://xmpp.org/extensions/xep-0198.html#scenarios
 	if c.config.StreamManagementEnable {
-		toStore := stanza.UnAckedStz{Stz: packet}
-		c.Session.SMState.UnAckQueue.Push(&toStore)
+		if q := c.Session.SMState.UnAckQueue; q != nil {
+			// See Send: queueing and writing are one step with respect to other senders
+			q.Lock()
+			defer q.Unlock()
+			toStore := stanza.UnAckedStz{Stz: packet}
+			q.Push(&toStore)
+		}
 	}
 	return c.sendWithWriter(c.transport, []byte(packet))
 }
